@@ -82,16 +82,17 @@ RULE = (
 class Acc:
     """Per-case accumulator (picklable result for multiprocessing)."""
 
-    def __init__(self):
+    def __init__(self, tag=""):
         self.cases = []      # (key, nontrivial, sample)
         self.fails = []      # (check, witness, detail)
         self.skips = []
+        self.tag = tag       # suffix of every check name ("@affine" for the affine-offset families)
 
     def case(self, key, nontrivial=True, sample=None):
         self.cases.append((key, bool(nontrivial), sample))
 
     def fail(self, check, witness, detail):
-        self.fails.append((check, jsonable(witness), str(detail)[:600]))
+        self.fails.append((check + self.tag, jsonable(witness), str(detail)[:600]))
 
     def skip(self, text):
         self.skips.append(text)
@@ -204,8 +205,48 @@ def gen_data(kind, T, N, dseed):
 
 def get_data(desc):
     if "explicit" in desc:
-        return np.ascontiguousarray(np.array(desc["explicit"], dtype=np.float64))
-    return gen_data(desc["kind"], desc["T"], desc["N"], desc["dseed"])
+        d = np.ascontiguousarray(np.array(desc["explicit"], dtype=np.float64))
+    else:
+        d = gen_data(desc["kind"], desc["T"], desc["N"], desc["dseed"])
+    if "aff" in desc:
+        # affine family: the float64 series a*x + b per column (|b| up to 1e7, |a| in 1e-3..1e3)
+        a = np.array(desc["aff"]["a"], dtype=np.float64)
+        b = np.array(desc["aff"]["b"], dtype=np.float64)
+        d = np.ascontiguousarray(d * a + b, dtype=np.float64)
+    return d
+
+
+def is_affine(desc):
+    return "aff" in desc
+
+
+def column_means_ld(d):
+    return np.asarray(d, dtype=np.longdouble).mean(axis=0)
+
+
+def centre_like(arr, d):
+    """arr[time, node] minus the column means of d, evaluated in extended precision (x87 long
+    double where available) and rounded to float64 once.  Pearson-type reference statistics are
+    invariant under this shift; it removes the cancellation that a float64 reference (least
+    squares with an intercept, in particular) would suffer for |offset| >> spread."""
+    return np.ascontiguousarray((np.asarray(arr, dtype=np.longdouble) - column_means_ld(d))
+                                .astype(np.float64))
+
+
+def ref_data(desc, d):
+    """The array from which the moment-based reference statistics are computed: the data itself,
+    for the affine families the exactly centred data (same statistic).  Rank / quantile-bin
+    references always use the data itself (no arithmetic on the values)."""
+    return centre_like(d, d) if is_affine(desc) else d
+
+
+def own_anomaly(d, cycle):
+    """Phase-mean removal (the definition of ClimateData.anomaly) in extended precision."""
+    x = np.asarray(d, dtype=np.longdouble)
+    out = np.empty_like(x)
+    for i in range(cycle):
+        out[i::cycle] = x[i::cycle] - x[i::cycle].mean(axis=0)
+    return out
 
 
 def n_nonconst(d):
@@ -282,7 +323,7 @@ def fam_cc(w, acc):
     tm = w["tau_max"]
     T, N = d.shape
     nontriv = n_nonconst(d) >= 2
-    ref = S.lagged_cc(d, tm)
+    ref = S.lagged_cc(ref_data(w["data"], d), tm)
     with quiet():
         ca = _ca(d)
         lib_all = ca.cross_correlation(tau_max=tm, lag_mode="all")
@@ -450,19 +491,19 @@ def fam_mi(w, acc):
                          f"neither the plug-in MI ({m1}) nor (T-tau_max)/T times it ({m2})")
         acc.case(wkey(w) + "|max-ref", nontriv)
         for f_ in ((1.0,) if tm == 0 else (1.0, M / float(T))):
-            sub = Acc()
+            sub = Acc()      # (names get the tag when they are copied to acc below)
             check_max_summary(sub, w, "mutual_information/binning-max", val, lag, ref * f_, tm,
                               signed=False, offdiag_only=False)
             if not sub.fails:
                 break
         else:
-            acc.fails.extend(sub.fails)
+            acc.fails.extend((c_ + acc.tag, w_, d_) for (c_, w_, d_) in sub.fails)
         be = _bins_eff(M, w["bins"])
         if lib_all.min() < -2 * ATOL or lib_all.max() > math.log(be) + 2 * ATOL:
             acc.fail("mutual_information/binning-bounds", w,
                      f"range [{lib_all.min()!r}, {lib_all.max()!r}] outside [0, log {be}]")
     elif est == "gauss":
-        ref, refr = S.lagged_gauss_mi(d, tm)
+        ref, refr = S.lagged_gauss_mi(ref_data(w["data"], d), tm)
         gdef = gauss_defined(refr)
         pairs = gdef.all(axis=2)
         msg = gauss_close(lib_all, ref, refr)
@@ -611,7 +652,7 @@ def fam_it(w, acc):
         acc.fail(f"information_transfer/{est}-shape", w, f"shape {lib_all.shape}")
         return
     if est == "gauss":
-        rho = S.info_transfer_partial_corr(d, tm, past, cm)
+        rho = S.info_transfer_partial_corr(ref_data(w["data"], d), tm, past, cm)
         for i in range(N):
             rho[i, i, 0] = np.nan      # X = Y: the library defines 0 there
         ref = np.vectorize(S.gauss_mi)(rho)
@@ -693,7 +734,7 @@ def fam_ccpure(w, acc):
     tm = w["tau_max"]
     T, N = d.shape
     nontriv = n_nonconst(d) >= 2
-    ref = S.two_sided_cc(d, tm)
+    ref = S.two_sided_cc(ref_data(w["data"], d), tm)
     ref0 = np.where(np.isnan(ref), 0.0, ref)
     with quiet():
         pp = _pp(d)
@@ -826,7 +867,7 @@ def fam_shuf(w, acc):
     nontriv = n_nonconst(d) >= 2
     np.random.seed(rs)
     sh = np.stack([np.random.permutation(d[:, i]) for i in range(N)], axis=1)[:cr]
-    R = S.pearson_matrix(sh)
+    R = S.pearson_matrix(centre_like(sh, d) if is_affine(w["data"]) else sh)
     R0 = np.where(np.isnan(R), 0.0, R)
     pp = _pp(d)
     for mode in ("all", "sum", "max"):
@@ -902,19 +943,24 @@ def fam_clim(w, acc):
     cls_name, cycle, winter = w["cls"], w["cycle"], w["winter_only"]
     T, N = d.shape
     cls = getattr(pc, cls_name)
+    aff = is_affine(w["data"])
     with quiet():
         cd = _climate_data(d, cycle)
-        anomaly = np.array(cd.anomaly(), dtype=np.float64)
+        lib_anomaly = np.array(cd.anomaly(), dtype=np.float64)
+    # affine families: the reference starts from the harness' own phase-mean removal (extended
+    # precision), the library is run through its whole pipeline observable -> anomaly -> similarity
+    anomaly = own_anomaly(d, cycle).astype(np.float64) if aff else lib_anomaly
     if winter:
         years = T // 12
         idx = [t for t in range(years * 12) if t % 12 in (0, 1, 11)]
         anomaly = anomaly[idx]
+        lib_anomaly = lib_anomaly[idx]
     nontriv = n_nonconst(anomaly) >= 2
     try:
         with quiet():
             net = cls(cd, threshold=0.5, winter_only=winter, silence_level=3)
             sim = np.array(net.similarity_measure())
-            signed = np.array(net.calculate_similarity_measure(anomaly.copy()))
+            signed = np.array(net.calculate_similarity_measure(lib_anomaly.copy()))
     except Exception as e:    # pylint: disable=broad-except
         if cls_name == "PartialCorrelationClimateNetwork" and \
                 not np.isfinite(S.corr_condition_number(anomaly)):
@@ -938,6 +984,12 @@ def fam_clim(w, acc):
         ref = S.spearman_matrix(anomaly)
         if not w.get("probe_ties"):
             tied = [k for k in range(N) if len(np.unique(anomaly[:, k])) < anomaly.shape[0]]
+            if aff:
+                # rank order must be decided by the float64 data: values of a series closer than
+                # the rounding noise of float64 at the magnitude of the observable count as tied
+                noise = 64 * np.finfo(np.float64).eps * np.abs(d).max(axis=0)
+                tied = [k for k in range(N) if k in tied
+                        or np.diff(np.sort(anomaly[:, k])).min() <= noise[k]]
             if tied:
                 acc.skip("SpearmanClimateNetwork: pairs involving an anomaly series with ties are "
                          "compared only in the dedicated probe (library uses ordinal ranks)")
@@ -1040,7 +1092,9 @@ def fam_surr(w, acc):
     T, N = d.shape
     n_bins = w["n_bins"]
     rng = np.random.RandomState(w["sseed"])
-    orig = _normalise_rows(d.T.copy())
+    aff = is_affine(w["data"])
+    orig = _normalise_rows(ref_data(w["data"], d).T.copy())
+    oref = sref = None
     if w["surrogate"] == "shuffle":
         sur = np.stack([rng.permutation(orig[i]) for i in range(N)])
     elif w["surrogate"] == "self":
@@ -1049,12 +1103,18 @@ def fam_surr(w, acc):
         with quiet():
             sobj = Surrogates(d.T.copy(), silence_level=3)
             sobj.normalize_original_data()
+        if aff:
+            # affine family: the reference is computed from the harness' own normalisation of the
+            # series, the library works on what normalize_original_data made of the raw series
+            oref = sref = np.ascontiguousarray(orig)
         orig = np.array(sobj.original_data, dtype=np.float64)
         sur = orig.copy()
     else:
         sur = _normalise_rows(rng.randn(N, T))
     orig = np.ascontiguousarray(orig)
     sur = np.ascontiguousarray(sur)
+    if oref is None:
+        oref, sref = orig, sur
     nontriv = n_nonconst(d) >= 2
     offd = ~np.eye(N, dtype=bool)
     # ---- Pearson
@@ -1065,7 +1125,7 @@ def fam_surr(w, acc):
     for i in range(N):
         for j in range(N):
             if i != j:
-                ref[i, j] = S.pearson(orig[i], sur[j])
+                ref[i, j] = S.pearson(oref[i], sref[j])
     msg = cmp_defined(pc_, ref, undefined="zero")
     if msg:
         acc.fail("Surrogates.test_pearson_correlation/equals-pearson", w, msg)
@@ -1080,19 +1140,22 @@ def fam_surr(w, acc):
     acc.case(wkey(w) + "|mi", nontriv)
     with quiet():
         mi_ = Surrogates.test_mutual_information(orig.copy(), sur.copy(), n_bins=n_bins)
-    lo = min(orig.min(), sur.min())
-    hi = max(orig.max(), sur.max())
+    lo = min(oref.min(), sref.min())
+    hi = max(oref.max(), sref.max())
     so, ss, ao, as_ = [], [], [], []
+    # (affine family: library and reference normalise independently; their values agree to
+    #  ~1e-6, i.e. 1e-4 cell widths is a safe ambiguity margin)
+    guard = 1e-4 if aff else 1e-9
     for i in range(N):
-        s1, a1 = S.equal_width_symbols(orig[i], lo, hi, n_bins, 1e-9)
-        s2, a2 = S.equal_width_symbols(sur[i], lo, hi, n_bins, 1e-9)
+        s1, a1 = S.equal_width_symbols(oref[i], lo, hi, n_bins, guard)
+        s2, a2 = S.equal_width_symbols(sref[i], lo, hi, n_bins, guard)
         so.append(s1)
         ss.append(s2)
         ao.append(a1)
         as_.append(a2)
     if any(ao) or any(as_):
         acc.skip("Surrogates.test_mutual_information: pairs involving a series with a value within "
-                 "1e-9 cell widths of a cell boundary are not compared")
+                 "1e-9 (affine family: 1e-4) cell widths of a cell boundary are not compared")
     ref = np.full((N, N), np.nan)
     for i in range(N):
         for j in range(N):
@@ -1280,7 +1343,7 @@ def build_cases(tier, seed):
 
 
 def eval_case(w):
-    acc = Acc()
+    acc = Acc(tag="@affine" if isinstance(w.get("data"), dict) and is_affine(w["data"]) else "")
     try:
         FAMILIES[w["family"]](w, acc)
     except Exception as e:    # pylint: disable=broad-except
